@@ -274,7 +274,7 @@ pub struct EnumSpec {
     pub variants: Vec<VariantSpec>,
     /// surface-syntax choices that do not change the meaning of the definition:
     /// "raw-literals", "escaped-literals", "hex-ints", "underscore-ints", "suffixed-ints",
-    /// "trailing-commas", "cfg_attr", "block-docs"
+    /// "trailing-commas", "cfg_attr", "block-docs", "docs-after-attrs", "docs-split"
     #[serde(default)]
     pub syntax: Vec<String>,
 }
@@ -651,14 +651,22 @@ pub fn render_enum(spec: &EnumSpec, derives: &[&str]) -> String {
         spec.where_clause.as_ref().map(|w| format!("where {} ", w)).unwrap_or_default()
     ));
     for (vi, v) in spec.variants.iter().enumerate() {
+        // documentation lines; by default they come first, "docs-after-attrs" puts all of them after the variant's
+        // other attributes and "docs-split" only the lines after the first (a doc comment is an attribute like any
+        // other: its position among the attributes does not matter)
+        let mut doc_lines: Vec<String> = Vec::new();
         for (d, form) in &v.docs {
             match form {
                 // a one-line block comment carries exactly the same text as the line comment
-                DocForm::Comment if spec.has_syntax("block-docs") && !d.is_empty() && !d.starts_with('*') && !d.starts_with('/') && !d.contains("*/") && !d.contains('\n') => o.push_str(&format!("    /**{}*/\n", d)),
-                DocForm::Comment => o.push_str(&format!("    ///{}\n", d)),
-                DocForm::Attr => o.push_str(&format!("    #[doc = {}]\n", lit_form(d, spec.lit_form()))),
-                DocForm::Marker => o.push_str(&format!("    #[doc({})]\n", d)),
+                DocForm::Comment if spec.has_syntax("block-docs") && !d.is_empty() && !d.starts_with('*') && !d.starts_with('/') && !d.contains("*/") && !d.contains('\n') => doc_lines.push(format!("    /**{}*/\n", d)),
+                DocForm::Comment => doc_lines.push(format!("    ///{}\n", d)),
+                DocForm::Attr => doc_lines.push(format!("    #[doc = {}]\n", lit_form(d, spec.lit_form()))),
+                DocForm::Marker => doc_lines.push(format!("    #[doc({})]\n", d)),
             }
+        }
+        let lead = if spec.has_syntax("docs-after-attrs") { 0 } else if spec.has_syntax("docs-split") { 1.min(doc_lines.len()) } else { doc_lines.len() };
+        for l in &doc_lines[..lead] {
+            o.push_str(l);
         }
         let items: Vec<String> =
             v.strum_items(spec.lit_form(), spec.int_form()).into_iter().map(|s| s.replace("dw_v", &format!("dw_{}", vi))).collect();
@@ -667,6 +675,13 @@ pub fn render_enum(spec: &EnumSpec, derives: &[&str]) -> String {
             o.push_str("    ");
             o.push_str(a);
             o.push('\n');
+        }
+        if lead < doc_lines.len() {
+            // always at least one attribute that is not documentation between / before the moved lines
+            o.push_str("    #[allow(dead_code)]\n");
+            for l in &doc_lines[lead..] {
+                o.push_str(l);
+            }
         }
         o.push_str("    ");
         o.push_str(&v.ident);
